@@ -1071,6 +1071,19 @@ fn geo_part(rep: &mut Report, rng: &mut Rng, exhaustive_small: bool, n: usize) {
 				rep.violation("pyramid_intersect_geo|per-level", "intersect_geo_bbox of a full pyramid differs from from_geo on a level", json!({"geo": format!("{g:?}"), "z": z, "pyramid": format!("{lp:?}"), "box": format!("{want:?}")}));
 				break;
 			}
+			// containment in the pyramid is containment in the level's box, on every level (31 included)
+			if !want.is_empty() {
+				let m = ((1u64 << z) - 1) as u32;
+				for (x, y) in [(want.x_min, want.y_min), (want.x_max, want.y_max), (want.x_min.saturating_sub(1), want.y_min), (want.x_max, (want.y_max as u64 + 1).min(m as u64) as u32)] {
+					let inside = x >= want.x_min && x <= want.x_max && y >= want.y_min && y <= want.y_max;
+					let c = TileCoord3::new(x, y, z).unwrap();
+					rep.count("pyramid_containment_checks", 1);
+					if p.contains_coord(&c) != inside {
+						rep.violation("pyramid_contains|per-level", "contains_coord of a pyramid differs from containment in the box of that level", json!({"geo": format!("{g:?}"), "z": z, "coordinate": format!("{c:?}"), "level_box": format!("{lp:?}"), "expected": inside}));
+						break;
+					}
+				}
+			}
 			if !same(lq) {
 				rep.violation("pyramid_from_geo|per-level", "from_geo_bbox differs from from_geo on a level", json!({"geo": format!("{g:?}"), "z": z, "pyramid": format!("{lq:?}"), "box": format!("{want:?}")}));
 				break;
